@@ -13,6 +13,9 @@ Parses (json / python `ast`, never imports) and emits coq/theories/Gen/SpecData.
   `FluxInterface_0490.get_flux_urgency`
   (maestrowf/interfaces/script/_flux/flux0_49_0.py).
 
+`propertyNames: {"type": "string"}` is accepted and emits nothing: keys of a
+`Json.jv` object are strings by construction.
+
 Fail-closed: any JSON-Schema keyword, keyword value, or Python shape that the
 Gallina side has no exact counterpart for raises NotTranslatable.
 """
@@ -161,6 +164,13 @@ def g_schema(sch, where):
             if val != VAR_PATTERN:
                 _fail("unsupported pattern %r at %s (only %r has a scanner)" % (val, w, VAR_PATTERN))
             kws.append("KPatternVar")
+        elif key == "propertyNames":
+            # Keys of a Json.v object ARE strings (a YAML key that is not one is
+            # outside the model's document type; the harness's raw-text stream
+            # covers it): exactly {"type": "string"} is vacuous there.
+            if val != {"type": "string"}:
+                _fail("only propertyNames {\"type\": \"string\"} is supported, at %s" % w)
+            continue
         elif key in ("description", "title", "$comment", "$id", "$schema", "default", "examples"):
             continue        # annotations: no effect on validation
         else:
